@@ -256,7 +256,7 @@ def sample_n_random_actions(td: TensorDict, n: int):
     action_mask = td["action_mask"]
     # check whether to use replacement or not: decided per instance, so that an instance with at
     # least n valid actions gets n distinct ones whatever its batch-mates offer
-    n_valid_actions = torch.sum(action_mask[:, 1:], 1)
+    n_valid_actions = torch.sum(action_mask, 1)  # all of them: the draw below is over every valid action, index 0 included
     replace = n_valid_actions < n
     ps = torch.rand((action_mask.shape))
     ps[~action_mask] = -torch.inf
